@@ -147,6 +147,29 @@ pub fn cmd_batch(args: &[String]) {
     writeln!(o, "END").unwrap();
 }
 
+/// runs case number `index` of the case file alone in a fresh worker; Some(event) if the worker completed it
+fn rerun_single(cases: &str, index: usize, deadline: Duration) -> Option<Value> {
+    let line = read_lines(cases).nth(index)?;
+    let single = format!("{cases}.retry");
+    let single_out = format!("{cases}.retry.out");
+    std::fs::write(&single, format!("{line}\n")).ok()?;
+    let _ = std::fs::remove_file(&single_out);
+    let exe = std::env::current_exe().ok()?;
+    let mut child = Command::new(exe).args(["frontend-batch", &single, "0", &single_out]).stdout(Stdio::null()).stderr(Stdio::null()).spawn().ok()?;
+    let t0 = Instant::now();
+    let done = loop {
+        match child.try_wait() { Ok(Some(st)) => break st.success(), Ok(None) => {}, Err(_) => break false }
+        if t0.elapsed() > deadline { break false; }
+        std::thread::sleep(Duration::from_millis(20));
+    };
+    let _ = child.kill();
+    let _ = child.wait();
+    let res = if done { read_lines(&single_out).next().and_then(|l| serde_json::from_str::<Value>(&l).ok()) } else { None };
+    let _ = std::fs::remove_file(&single);
+    let _ = std::fs::remove_file(&single_out);
+    res
+}
+
 /// supervises one worker over the whole case file; returns when every case has an event
 fn supervise(cases: &str, out: &str, deadline: Duration) {
     let _ = std::fs::remove_file(out);
@@ -180,10 +203,17 @@ fn supervise(cases: &str, out: &str, deadline: Duration) {
         let _ = child.kill();
         let _ = child.wait();
         if finished { break; }
-        // the case `current` did not complete: hang (deadline) or crash (process died)
+        // the case `current` did not complete: hang (deadline) or crash (process died).  The observation is confirmed by
+        // running the case once more on its own (a worker can also die for reasons that have nothing to do with the input)
         let mut w = std::fs::OpenOptions::new().create(true).append(true).open(out).unwrap();
-        let ev = json!({"i": current, "nlines": 1, "outcome": if exited { "crash" } else { "hang" }, "phase": "worker", "errors": [], "nerrors": 0, "prettify_ok": true});
+        let confirmed = rerun_single(cases, current, deadline * 2);
+        let ev = match confirmed {
+            Some(mut ev) => { ev["i"] = json!(current); ev["retried"] = json!(true); ev }
+            None => json!({"i": current, "nlines": 1, "outcome": if exited { "crash" } else { "hang" }, "phase": "worker", "errors": [], "nerrors": 0, "prettify_ok": true}),
+        };
+        let failed = matches!(ev["outcome"].as_str(), Some("crash") | Some("hang"));
         writeln!(w, "{ev}").unwrap();
+        if !failed { start = current + 1; continue; }
         stuck += 1;
         start = current + 1;
     }
